@@ -245,7 +245,7 @@ Definition simple_builtin (b : builtin) (args : list value) : VM (list value) :=
 (* func (ls *LState) ToStringMeta(lv) *)
 Definition ToStringMeta (v : value) : VM value :=
   vdo h <- metaOp1 v s_mm_tostring;
-  if is_function h then
+  if negb (is_nil h) then   (* ToStringMeta: any non-nil handler is called (5c2f2ce) *)
     vdo _ <- reg_push h; vdo _ <- reg_push v; vdo _ <- Call mainloop 1 1; reg_pop
   else
     match v with
